@@ -126,6 +126,13 @@ def boundary_radius(G, c, axis_f, r0, n, spec):
 def check(case, ctx):
     G = lib()
     kind = case[0]
+    if kind == "PAIR":
+        # the same builder call at two centres, one after the other in one process (whatever the first call left
+        # behind must not leak into the second); the centres differ by -1 / -2 in one coordinate, whose Point hashes
+        # collide in CPython
+        for sub in case[1:]:
+            check(sub, ctx)
+        return
     facts = {"builder": kind}
 
     def guard(name, fn):
@@ -377,16 +384,49 @@ def sphere_case(draw):
 def pgram_case(draw):
     p = draw(gen.lattice_point(6))
     v1, v2 = draw(gen.direction(4)), draw(gen.direction(4))
+    if draw(st.integers(0, 3)) == 0:
+        v2 = _near_parallel(draw, v1)
+        if draw(st.booleans()):
+            v1, v2 = v2, v1
     assume(not X.is_zero(X.cross(v1, v2)))
     return ("Parallelogram", p, v1, v2)
+
+
+def _near_parallel(draw, v1):
+    """a long vector a few degrees off k * v1 (still far outside any tolerance): k * v1 scaled up plus a short offset"""
+    k = draw(st.sampled_from((1, 1, 2, 3)))
+    w = tuple(F(c, 4) for c in draw(gen.direction(2)))
+    assume(not X.is_zero(X.cross(v1, w)))
+    return X.add(X.mul(k * draw(st.sampled_from((2, 3, 4))), v1), w)
 
 
 @st.composite
 def ppd_case(draw):
     p = draw(gen.lattice_point(6))
     v1, v2, v3 = draw(gen.direction(3)), draw(gen.direction(3)), draw(gen.direction(3))
+    if draw(st.integers(0, 3)) == 0:
+        # needle-like bodies: two long edges enclosing a few degrees
+        v1 = X.mul(draw(st.sampled_from((2, 3))), v1)
+        v2 = _near_parallel(draw, v1)
+        if draw(st.booleans()):
+            v1, v2, v3 = draw(st.permutations([v1, v2, v3]))
     assume(X.det3(v1, v2, v3) != 0)
+    assume(max(abs(c) for v in (v1, v2, v3) for c in v) <= 40)
     return ("Parallelepiped", p, v1, v2, v3)
+
+
+@st.composite
+def quirk_pair_case(draw, kind):
+    i = draw(st.integers(0, 2))
+    a, b = draw(st.sampled_from((0, 1))), draw(st.sampled_from((0, 1)))
+    lo, hi = draw(st.sampled_from(((-1, -2), (-2, -1))))
+    q1, q2 = [F(a), F(b)], [F(a), F(b)]
+    q1.insert(i, F(lo))
+    q2.insert(i, F(hi))
+    axis, tag = draw(axis_dir(draw(st.sampled_from(("lattice", "lattice", "random")))))
+    r = draw(st.integers(2, 40)) / 8.0
+    n = draw(st.sampled_from((3, 4, 5, 6, 8, 12)))
+    return ("PAIR", (kind, tuple(q1), axis, r, n, "colliding-centres"), (kind, tuple(q2), axis, r, n, "colliding-centres"))
 
 
 def strata(tier):
@@ -397,6 +437,8 @@ def strata(tier):
             out.append(Stratum("%s/%s" % (kind, mode), "hyp", round_case(kind, mode), n if q else n * 30))
     for kind in ("Circle", "Cylinder", "Cone"):
         out.append(Stratum("%s/boundary-radius" % kind, "hyp", boundary_case(kind), 60 if q else 2000))
+    for kind in ("Circle", "Cylinder", "Cone"):
+        out.append(Stratum("%s/colliding-centres" % kind, "hyp", quirk_pair_case(kind), 24 if q else 800))
     out.append(Stratum("Sphere", "hyp", sphere_case(), 48 if q else 1500))
     out.append(Stratum("Parallelogram", "hyp", pgram_case(), 200 if q else 6000))
     out.append(Stratum("Parallelepiped", "hyp", ppd_case(), 150 if q else 5000))
